@@ -206,6 +206,8 @@ type tr struct {
 	inDefer bool
 	touched map[*Var]bool
 	qcount int
+	captured []capturedVar
+	rangeColl map[int]Term
 	calledResults []Term
 	hasRecover bool
 }
@@ -455,6 +457,11 @@ func (t *tr) join(bs ...*Block) *Block {
 		}
 	}
 	return nb
+}
+
+type capturedVar struct {
+	name string
+	v    *Var
 }
 
 // ---- snapshots for dry runs (loop modified-set discovery) ----
